@@ -22,7 +22,17 @@ ASSUMPTIONS = [
 ]
 
 
+# expression aliases with a wider output rank: cancellation of a stored partial
+# sum followed by the insertion of a *new* smaller coordinate needs >= 3 output
+# coordinates (reduction rank outermost, mixed-sign entries)
+EXPRS["matvec-m3"] = EXPRS["matvec"]
+EXPRS["colsum-n3"] = EXPRS["colsum"]
+WIDE = {"matvec-m3": {"m": 3, "k": 2}, "colsum-n3": {"m": 2, "n": 3}}
+
+
 def shapes_for(name):
+    if name in WIDE:
+        return dict(WIDE[name])
     out, ins = EXPRS[name]
     allv = index_vars(ins)
     n = 3 if len(allv) == 1 else 2
@@ -107,12 +117,15 @@ def run(ctx):
         plan.append(("matmul-scale", (0, 1), 0, (False,)))
         plan.append(("dot", (-1, 0, 1, 2), 1, (False, True)))
         plan.append(("matvec", (0, 1, 2), 0, (False,)))
+        plan.append(("matvec-m3", (-1, 0, 1), 0, (False,)))
+        plan.append(("colsum-n3", (-1, 0, 1), 0, (False,)))
     else:
         small = ("dot", "elem", "rowsum", "sumall", "colsum", "outer")
         plan = [(n, (-1, 0, 1, 2), 2, (False, True)) for n in small]
         plan += [("elem2d", (0, 1, 2), 2, (False, True)), ("matvec", (-1, 0, 1, 2), 2, (False, True)),
                  ("elem3", (0, 1, 2), 1, (False, True)), ("matmul", (0, 1), 2, (False, True)),
-                 ("matmul", (0, 1, 2), 1, (False,)), ("matmul-scale", (0, 1), 1, (False, True))]
+                 ("matmul", (0, 1, 2), 1, (False,)), ("matmul-scale", (0, 1), 1, (False, True)),
+                 ("matvec-m3", (-1, 0, 1, 2), 1, (False,)), ("colsum-n3", (-1, 0, 1, 2), 1, (False,))]
     ctx.bounds = {"plan": [dict(expr=n, entries=list(a), tile_mode=t, inner_tile_loop_directly_below=list(p))
                            for n, a, t, p in plan],
                   "tile_mode": "0 = untiled, 1 = every tile size of every single variable, 2 = also every pair of variables"}
